@@ -31,3 +31,10 @@ LEVEL_TEXT.update({
 for _p in ("C03", "C04", "C05", "C06", "C13"):
     LEVEL_NOTE[_p] = _CHAIN_NOTE
     TECHNIQUE[_p] = "deterministic simulation of API-call histories on a shared object population with dense reference model (seeded schedule search, ddmin replay)"
+
+LEVEL_TEXT["C15"] = "Seeded expression programs over a pool of Op/OpSum objects (all public arithmetic operators, six scalar types on either side, products, simplify with tolerances, squeeze_identity, copy, aliasing, in-place +=): every result equals the matrix expression of the operand matrices to 1e-10 of the summand magnitudes, every pool member is re-evaluated after every step, ==/hash consistency. Exploration of programs; no fault kind applies."
+LEVEL_NOTE["C15"] = "Trusted: BasisSet.op_mat as the denotation of elementary symbols; same-site oscillator products are excluded (they are defined only up to the documented truncation, see C16). Pure in-memory algebra: the simulation dimension is program order and aliasing only."
+TECHNIQUE["C15"] = "deterministic simulation of expression programs with aliasing against a dense denotation (seeded search, ddmin replay)"
+LEVEL_TEXT["C16"] = "Sessions over SHARED basis instances interleaving supported requests, raising requests and use inside Model/Mpo: (i) every returned matrix equals that of a fresh identically-constructed instance (history independence incl. after exceptions), (ii) defining relations (written-order products, commutators, powers, shifted-origin/DVR/general-power consistency, sine-DVR integrals by quadrature, Pauli algebra, multi-electron placement), (iii) Holstein/spin-boson/TI builders vs harness-assembled Hamiltonians and spectra across schemes. (ii),(iii) are sampled inputs."
+LEVEL_NOTE["C16"] = "Trusted: numpy/scipy (quad, eigvalsh); relations are checked on the sub-block unaffected by basis truncation; only (i) is a schedule property, (ii)/(iii) have the strength of seeded random testing."
+TECHNIQUE["C16"] = "deterministic simulation of call histories on shared mutable basis objects (incl. failing calls) + sampled relation checks"
